@@ -55,7 +55,14 @@ def curated() -> List[Any]:
             ntup(STR, U8, ADDR), tup(("darray", U8), BOOL, ("sarray", BOOL, 3)), tup(STR, STR, U64, ("sarray", U64, 2)),
             # members of exactly / around 256 bytes (one-byte immediates of extract / substring)
             tup(("sarray", U64, 32), U8), tup(U8, ("sarray", U64, 32), U8), tup(("sarray", ADDR, 8), STR), ntup(("sarray", U64, 32), U16),
-            tup(("sarray", U64, 31), ("sarray", U64, 33), U8), tup(U8, ("sarray", U32, 64))]
+            tup(("sarray", U64, 31), ("sarray", U64, 33), U8), tup(U8, ("sarray", U32, 64)),
+            # a static aggregate as the last member of an all-static tuple at an offset of 256 or more / just below
+            tup(("sarray", U64, 32), ("sarray", U16, 3)), tup(("sarray", U64, 33), ADDR), tup(("sarray", U64, 32), tup(U8, U8)),
+            tup(("sarray", U64, 31), ("sarray", U16, 3)), tup(("sarray", U64, 32), ("sarray", BYTE, 4)),
+            # named tuples that use the same field names at different positions (also nested in each other)
+            ("ntuple", (U64, U64, ("ntuple", (BOOL, U64), ("open", "id"))), ("id", "qty", "pos")),
+            ("ntuple", (("ntuple", (U8, STR), ("b", "a")), U16, STR), ("a", "b", "c")),
+            tup(("ntuple", (U8, U16), ("x", "y")), ("ntuple", (U16, U8), ("y", "x")))]
     return _dedup(out)
 
 
